@@ -261,6 +261,11 @@ def run(tier):
         configs = pick
     else:
         configs = named
+    # "together with any others": every pair of quantity features (a feature
+    # that needs another one and does not say so shows in a pair at the
+    # latest); quick in two columns, thorough in every column
+    pairs = [[a, b] for i, a in enumerate(ALL_FEATURES) for b in ALL_FEATURES[i + 1:]]
+    configs = configs + [(r, c) for r in pairs for c in ([COLUMNS[0], COLUMNS[-1]] if tier == "quick" else COLUMNS)]
     violations = []
     evaluations = 0
     samples = []
@@ -347,7 +352,7 @@ def run(tier):
     coverage = {
         "evaluations": evaluations + corpus_runs,
         "distinct_nontrivial": len(probe.checked) + corpus_runs,
-        "rule": "configurations = (14 single-feature rows, all, none) x {std,no std} x {f64,decimal} x {serde on,off}: quick checks every row once, every column for 'all' and 'none' and a seeded sample, thorough all 128; plus Hypothesis-drawn random feature subsets (shrunk to a minimal failing set). Each configuration is built through a probe crate that forwards the features and names, for every enabled quantity and every quantity its definition needs according to the independent table, the type, a unit constant, like arithmetic and every derivation operator with ascribed result types. Stability: a corpus program prints bit patterns and texts of a fixed operation list per quantity; its lines in a minimal configuration must equal those in the full configuration. Non-trivial/distinct: distinct feature sets built plus corpus runs",
+        "rule": "configurations = (14 single-feature rows, all, none) x {std,no std} x {f64,decimal} x {serde on,off}: quick checks every row once, every column for 'all' and 'none' and a seeded sample, thorough all 128; plus all 91 pairs of quantity features (quick: the plain and the no-std decimal serde column, thorough: every column); plus Hypothesis-drawn random feature subsets (shrunk to a minimal failing set). Each configuration is built through a probe crate that forwards the features and names, for every enabled quantity and every quantity its definition needs according to the independent table, the type, a unit constant, like arithmetic and every derivation operator with ascribed result types. Stability: a corpus program prints bit patterns and texts of a fixed operation list per quantity; its lines in a minimal configuration must equal those in the full configuration. Non-trivial/distinct: distinct feature sets built plus corpus runs",
         "samples": samples,
         "exhaustive": tier != "quick",
         "configurations_built": len(probe.checked),
